@@ -25,6 +25,9 @@ structure Drv where
   sqlSt : SqlState := {}
   /-- direct evaluation of the applied operation sequence: name -> (columns, rows, key-determined) -/
   direct : List (String × (Cols × List Row × Bool)) := []
+  /-- relations whose construction moved a projection upstream of a deduplication by back-tracking
+  (known finding F04), and everything built from them -/
+  f04 : List String := []
 deriving Inhabited
 
 namespace Drv
@@ -134,6 +137,13 @@ def Drv.adopt (d : Drv) (n : String) (r : Rel) : Drv × Rel :=
   (d'.setRel n r', r')
 
 def errLine (e : Err) : String := "err " ++ e.name
+
+/-- A deduplication lies on the unary spine of the tree (between the root and the first node that
+is not a unary operation). -/
+def dedupOnSpine : Rel → Bool
+  | .unary .dedup _ _ => true
+  | .unary _ t _ => dedupOnSpine t
+  | _ => false
 
 /-- Remove the `#<serial>` tokens (object identity) from a printed tree. -/
 def stripSerials (s : String) : String :=
@@ -256,6 +266,14 @@ def step (d : Drv) (cmd : List Sexp) : Drv × String :=
             match req.toUOp with
             | .ok op => d.directU tn op
             | .error _ => none
+        let isProj := match req with
+          | .proj _ => true
+          | _ => false
+        let taint := d.f04.contains tn ||
+          (isProj && o.backtrack && (match o.pref with
+            | some e => e != t.engine
+            | none => false) && dedupOnSpine t)
+        let d := if taint then { d with f04 := n :: d.f04 } else d
         (d.setDirect n dv).report n (if r.isSame then "same" else "new") (.ok (r.get t))
     | _, _, _ => (d, "bad-ref")
   -- (join rN rL rR PRED bt tr)
@@ -271,6 +289,7 @@ def step (d : Drv) (cmd : List Sexp) : Drv × String :=
             let common := Cols.keys (Cols.inter lc rc)
             some (lc.union rc, joinRows common p lr rr, lk && rk)
           | _, _ => none
+        let d := if d.f04.contains ln || d.f04.contains rn then { d with f04 := n :: d.f04 } else d
         (d.setDirect n dv).report n (if res.isSame then "same" else "new") (.ok (res.get l))
     | _, _, _, _, _ => (d, "bad-ref")
   | [atom "chain", atom n, atom ln, atom rn] =>
@@ -283,6 +302,7 @@ def step (d : Drv) (cmd : List Sexp) : Drv × String :=
           match d.direct? ln, d.direct? rn with
           | some (lc, lr, lk), some (_, rr, rk) => some (lc, lr ++ rr, lk && rk)
           | _, _ => none
+        let d := if d.f04.contains ln || d.f04.contains rn then { d with f04 := n :: d.f04 } else d
         (d.setDirect n dv).report n "new" (.ok (res.get l r))
     | _, _ => (d, "bad-ref")
   | [atom "mat", atom n, atom tn, atom name] =>
@@ -290,7 +310,9 @@ def step (d : Drv) (cmd : List Sexp) : Drv × String :=
     | some t =>
       match t.materialized d.store name with
       | .error e => (d, errLine e)
-      | .ok res => (d.setDirect n (d.direct? tn)).report n (if res.isSame then "same" else "new") (.ok (res.get t))
+      | .ok res =>
+        let d := if d.f04.contains tn then { d with f04 := n :: d.f04 } else d
+        (d.setDirect n (d.direct? tn)).report n (if res.isSame then "same" else "new") (.ok (res.get t))
     | none => (d, "bad-ref")
   | [atom "transfer", atom n, atom tn, atom en] =>
     match d.rel? tn, d.eng? en with
@@ -389,8 +411,8 @@ def step (d : Drv) (cmd : List Sexp) : Drv × String :=
       let kdt := keyDetermined d.sigma r
       match d.direct? n with
       | some (_, rows, kd) =>
-        (d, s!"ok rows={showRows d.env.tags rows} tree={tree} kd={showBool (kd && kdt)}")
-      | none => (d, s!"ok rows={tree} tree={tree} kd={showBool kdt}")
+        (d, s!"ok rows={showRows d.env.tags rows} tree={tree} kd={showBool (kd && kdt)} f04={showBool (d.f04.contains n)}")
+      | none => (d, s!"ok rows={tree} tree={tree} kd={showBool kdt} f04={showBool (d.f04.contains n)}")
   -- (show rN)
   | [atom "show", atom n] =>
     match d.rel? n with
@@ -557,6 +579,7 @@ def step (d : Drv) (cmd : List Sexp) : Drv × String :=
       | (.ok res, ps) =>
         let d := { d with st := ps.st, sqlSt := ps.sq }
         let d := d.setDirect n (d.direct? tn)
+        let d := if d.f04.contains tn then { d with f04 := n :: d.f04 } else d
         let (d, line) := d.report n (if res.isSame then "same" else "new") (.ok (res.get t))
         -- input tree after processing (payload marks may have changed)
         (d, line ++ " || input=" ++ (t.show d.hasPay) ++ " || hooks=" ++ " ".intercalate ps.hooks
